@@ -414,8 +414,9 @@ impl Check for BuildCheck {
 						.arg(c)
 						.arg(tier.name())
 						.env("VERIF_NO_EVIDENCE", "1")
-						// the indicator references are cheap: full budget; the method checks a quarter / half of theirs
-						.env("VERIF_RUNS_DIV", if matches!(c, "C05" | "C06") { "1" } else if tier == Tier::Quick { "4" } else { "2" })
+						// quick: the indicator references are cheap (full budget), the method checks a quarter of theirs;
+						// thorough: an eighth of the thorough budgets (still 1.5x to 6x the quick ones)
+						.env("VERIF_RUNS_DIV", if tier == Tier::Thorough { "8" } else if matches!(c, "C05" | "C06") { "1" } else { "4" })
 						.env("VERIF_SEED", seed.to_string())
 						.env("VERIF_DIR", dir.to_string_lossy().to_string())
 						.output();
